@@ -9,13 +9,28 @@ open Driver PqModel.Merge
 def parseLists? {α} (p : String → Option α) (s : String) : Option (List (List α)) :=
   if s == "." then some [] else (s.splitOn "/").mapM (parseList? p)
 
+def streakOf : Reader → Int
+  | .two s => s.streak
+  | .many s => s.streak
+  | _ => -1
+
+/-- `Reader.session` that also records the streak counter after every call -/
+def sessionS : Reader → List Nat → List (List Row) × List Int × Bool
+  | _, [] => ([], [], false)
+  | r, m :: ms =>
+    let res := r.readRows m
+    if res.2.1 then ([res.1], [streakOf res.2.2], true)
+    else
+      let rest := sessionS res.2.2 ms
+      (res.1 :: rest.1, streakOf res.2.2 :: rest.2.1, rest.2.2)
+
 def showRow (r : Row) : String := s!"{r.inp}:{r.seq}"
 def showBatch (b : List Row) : String := showList showRow b
 
 def parseOptRow? (s : String) : Option (Option Row) :=
   if s == "n" then some none else (s.toInt?).map (fun k => some { key := k, inp := 0, seq := 0 })
 
-/-- `merge.run <inputs> <batch sizes> <refill sizes>` -> `ok <eof> <batch>|<batch>|…`
+/-- `merge.run <inputs> <batch sizes> <refill sizes>` -> `ok <eof> <batch>|<batch>|… <streak after each call>`
     `merge.runlength <window keys> <bound> <max>` -> `ok <n>`
     `dedupe.run <batches of keys>` -> `ok <kept rows as batch:index>` -/
 def handle (toks : List String) : Option String :=
@@ -24,8 +39,8 @@ def handle (toks : List String) : Option String :=
     match parseLists? parseInt? ins, parseList? parseNat? bs, parseLists? parseNat? rs with
     | some ins, some bs, some rs =>
       let r := Reader.new (tagInputs ins) rs
-      let res := r.session bs
-      s!"ok {if res.2.1 then 1 else 0} {"|".intercalate (res.1.map showBatch)}"
+      let res := sessionS r bs
+      s!"ok {if res.2.2 then 1 else 0} {"|".intercalate (res.1.map showBatch)} {showList toString res.2.1}"
     | _, _, _ => "bad-op"
   | ["merge.runlength", w, b, mx] => some <|
     match parseList? parseInt? w, parseInt? b, parseInt? mx with
